@@ -9,8 +9,10 @@
 
 namespace vf {
 
-static const char *const kPoolNames[] = {"ALPha", "BRAvo", "CHarlie", "DELTa", "ECHO", "FOXtrot", "GOLF", "HOTel", "INDia", "JULiett", "KILO", "LIMa"};
-static const int kNPool = 12;
+// the last three begin with the short form of an earlier name (ALP, CH, IND) without being ambiguous with it: keyword pairs
+// in a prefix relation are where a matcher that compares forms piecewise can go wrong
+static const char *const kPoolNames[] = {"ALPha", "BRAvo", "CHarlie", "DELTa", "ECHO", "FOXtrot", "GOLF", "HOTel", "INDia", "JULiett", "KILO", "LIMa", "ALPMode", "CHIrp", "INDEx"};
+static const int kNPool = 15;
 
 inline std::string wsp(Src &s, int maxn = 2) { std::string w; int n = (int) s.weighted({6, 2, 1}); if (n > maxn) n = maxn; for (int i = 0; i < n; i++) w += s.prob(1, 4) ? '\t' : ' '; return w; }
 inline std::string randCaseOf(Src &s, const std::string &t) {
@@ -140,7 +142,7 @@ inline OItem genItem(Src &s) {
         case 5: it.kind = O_MNEM; it.s = s.pick(std::vector<std::string>{"OK", "VOLT", "a_1", "0"}); break;
         case 6: { it.kind = O_TEXT; size_t n = s.range(0, 10); for (size_t i = 0; i < n; i++) it.s += s.prob(1, 4) ? '"' : (char) s.range(0x20, 0x7e); break; }
         case 7: { it.kind = O_BLOCK; size_t n = s.range(0, 12); for (size_t i = 0; i < n; i++) it.s += (char) s.range(0, 255); break; }
-        default: { it.kind = O_ARR; it.elem = (int) s.range(0, 7); it.format = (int) s.range(0, 2); size_t n = s.prob(1, 25) ? s.range(250, 600) : s.range(1, 4);   /* now and then a trace-sized array: more items than an 8-bit counter holds */
+        default: { it.kind = O_ARR; it.elem = (int) s.range(0, 7); it.format = (int) s.range(0, 2); size_t n = s.prob(1, 25) ? (s.prob(1, 12) ? s.range(32760, 33000) : s.range(250, 600)) : s.range(1, 4);   /* now and then a trace-sized array: more items than an 8-bit - rarely: a 16-bit - counter holds */
                    for (size_t i = 0; i < n; i++) it.arr.push_back(s.range(0, 200)); break; }
     }
     return it;
